@@ -289,6 +289,68 @@ fn drop_probe() -> Option<Failure> {
 /// C17 "after the last handle is dropped, background threads have stopped ... and opening succeeds", with
 /// background work still *running* at drop time: a compaction whose filter (user code on a worker thread)
 /// takes 2.5 s.  When the drop returns no `fjall:worker` thread may be left and the directory must open.
+/// The lock must outlive the instance's last journal I/O: `Journal::drop` flushes and syncs the journal, and only
+/// after that may a second open succeed.  The `log` facade is the pause point: fjall logs "Dropping journal" right
+/// before that flush; at that instant (on the dropping thread) a second open of the directory must be refused.
+mod droplog {
+    use std::sync::atomic::{AtomicBool, Ordering};
+    use std::sync::Mutex;
+    pub static ARMED: AtomicBool = AtomicBool::new(false);
+    pub static DIR: Mutex<Option<std::path::PathBuf>> = Mutex::new(None);
+    /// result of the open attempted inside the window: Some(true) = it succeeded
+    pub static OPENED: Mutex<Option<(bool, String)>> = Mutex::new(None);
+    pub struct L;
+    impl log::Log for L {
+        fn enabled(&self, _: &log::Metadata) -> bool { ARMED.load(Ordering::Acquire) }
+        fn log(&self, rec: &log::Record) {
+            if !ARMED.load(Ordering::Acquire) { return; }
+            if !format!("{}", rec.args()).starts_with("Dropping journal") { return; }
+            ARMED.store(false, Ordering::Release); // one shot; also keeps the nested open from re-entering
+            let dir = DIR.lock().unwrap().clone();
+            if let Some(dir) = dir {
+                let r = fjall::Database::builder(&dir).worker_threads_unchecked(0).open();
+                let out = match &r { Ok(_) => (true, "Ok".to_string()), Err(e) => (false, format!("{e:?}")) };
+                *OPENED.lock().unwrap() = Some(out);
+                drop(r);
+            }
+        }
+        fn flush(&self) {}
+    }
+    pub static LOGGER: L = L;
+}
+
+fn drop_window_probe() -> Option<Failure> {
+    use std::sync::atomic::Ordering;
+    let _ = log::set_logger(&droplog::LOGGER);
+    let scratch = Scratch::new("dropwin");
+    let dir = scratch.join("db");
+    let db = Database::builder(&dir).worker_threads_unchecked(0).manual_journal_persist(true).open().ok()?;
+    let ks = db.keyspace("a", KeyspaceCreateOptions::default).ok()?;
+    ks.insert("k", "v").ok()?;
+    *droplog::DIR.lock().unwrap() = Some(dir.clone());
+    *droplog::OPENED.lock().unwrap() = None;
+    log::set_max_level(log::LevelFilter::Trace);
+    droplog::ARMED.store(true, Ordering::Release);
+    drop(ks);
+    drop(db);
+    droplog::ARMED.store(false, Ordering::Release);
+    log::set_max_level(log::LevelFilter::Off);
+    let seen = droplog::OPENED.lock().unwrap().take();
+    match seen {
+        None => None, // the message was not logged (log statically disabled): nothing probed
+        Some((false, _)) => {
+            // refused, as it must be; and after the drop the buffered write is there
+            let db = Database::builder(&dir).worker_threads_unchecked(0).open().ok()?;
+            let ks = db.keyspace("a", KeyspaceCreateOptions::default).ok()?;
+            if ks.get("k").ok()?.is_none() {
+                return Some(Failure { kind: "impl-vs-oracle", detail: "a write buffered with manual_journal_persist is gone after dropping the last handle and reopening (Journal::drop must flush and sync)".into() });
+            }
+            None
+        }
+        Some((true, s)) => Some(Failure { kind: "impl-vs-oracle", detail: format!("a second open of the directory returned {s} while the first instance was still inside Journal::drop, before its journal was flushed and synced: the directory lock was released too early (two live instances; the second one recovers a journal without the first one's buffered, acknowledged writes)") }),
+    }
+}
+
 fn busy_worker_drop_probe() -> Option<Failure> {
     use fjall::compaction::filter::{CompactionFilter, Context, Factory, ItemAccessor, Verdict};
     use std::sync::atomic::{AtomicBool, Ordering};
@@ -323,11 +385,11 @@ fn busy_worker_drop_probe() -> Option<Failure> {
     let still_running = !FINISHED.load(Ordering::Acquire);
     let reopen = open(&dir);
     // a worker's OS thread may exist for an instant after it reported its exit (it is past all fjall code then):
-    // give the kernel 300 ms before counting
+    // give the kernel up to 2 s (a loaded machine) before counting
     let count_workers = || std::fs::read_dir("/proc/self/task").map(|d| d.filter_map(|e| e.ok()).filter(|e| std::fs::read_to_string(e.path().join("comm")).map(|c| c.trim().starts_with("fjall:worker")).unwrap_or(false)).count()).unwrap_or(0);
     let expect_after_reopen = if reopen.is_ok() { 1 } else { 0 };
     let t2 = std::time::Instant::now();
-    while count_workers() > expect_after_reopen && t2.elapsed() < std::time::Duration::from_millis(300) { std::thread::sleep(std::time::Duration::from_millis(10)); }
+    while count_workers() > expect_after_reopen && t2.elapsed() < std::time::Duration::from_millis(2000) { std::thread::sleep(std::time::Duration::from_millis(10)); }
     let workers_left = count_workers().saturating_sub(expect_after_reopen);
     let reopen_ok = reopen.is_ok();
     let reopen_s = match &reopen { Ok(_) => "Ok".to_string(), Err(e) => format!("{e:?}") };
@@ -362,6 +424,7 @@ fn main() {
     let mut hist = std::collections::BTreeMap::new();
     let mut cases = 0;
     if replay.is_none() { if let Some(f) = drop_probe() { all.push((0, f)); } *hist.entry("drop-probe".to_string()).or_insert(0) += 1; }
+    if replay.is_none() { if let Some(f) = drop_window_probe() { all.push((0, f)); } *hist.entry("drop-window-probe".to_string()).or_insert(0) += 1; }
     if replay.is_none() { if let Some(f) = busy_worker_drop_probe() { all.push((0, f)); } *hist.entry("busy-worker-drop-probe".to_string()).or_insert(0) += 1; }
     for cs in seeds {
         // even seeds: marker contents; odd seeds: lock orders (a replayed seed keeps its parity)
